@@ -234,9 +234,16 @@ pub fn run(out: &mut Out, rng: &mut Rng, thorough: bool) {
 			out.eval("detect_slice_eq_reader", &key, translates);
 			if d.answer != by_slice {
 				if translates {
+					// K7: input that is not UTF-8 whose first JSON value parses —
+					// the slice JSON trial declines (whole-input UTF-8 check), the
+					// reader JSON trial accepts (first value only).
+					let k7 = std::str::from_utf8(input).is_err()
+						&& crate::props::c02::json_first_value_parses(input)
+						&& by_slice != Ok(Some(Fmt::Json))
+						&& d.answer == Ok(Some(Fmt::Json));
 					out.fail(
 						"detect_slice_eq_reader",
-						"",
+						if k7 { "K7-json-trial-non-utf8" } else { "" },
 						format!("input {} ({}) translates successfully, but is detected as {} from a slice and as {} from a reader with caps {}", hex(input), item.label, fmt_name(&by_slice), fmt_name(&d.answer), s.field()),
 					);
 				} else {
